@@ -13,7 +13,7 @@ The property your change must BREAK:
 Relevant code: {', '.join(p['anchors']['files'])}. Focus for you: {focus}
 
 Requirements for the change:
-1. It must still compile (`go build ./...`) and the EXISTING test suite must still pass. Run the tests of the packages you touch, e.g. `go test -vet=off -count=1 ./engine.io/... ./adapter/... ./parser/...` and for the root package `go test -vet=off -count=1 .` (root tests take ~100 s). NOTE: these root tests are ALREADY flaky/failing on the untouched code in this sandbox, ignore them: TestClient/should_emit_events_in_order, TestClient/*volatile*, TestNamespace/emits_to_rooms*, TestNamespace/emits_to_the_rest, TestNamespace/broadcasts_binary_data_to_rooms, TestNamespace/*exclude*, TestServer/should_receive_all_events_emitted_from_namespaced_client_immediately_and_in_order. If another test fails, re-run it alone a few times on the original code before concluding your change caused it.
+1. It must still compile (`go build ./...`) and the EXISTING test suite must still pass. Run the tests of the packages you touch, e.g. `go test -vet=off -count=1 ./engine.io/... ./adapter/... ./parser/...` and for the root package `go test -vet=off -count=1 .` (root tests take ~100 s). NOTE: these root tests are ALREADY flaky/failing on the untouched code in this sandbox, ignore them: TestClient/should_emit_events_in_order, TestClient/*volatile*, TestNamespace/emits_to_rooms*, TestNamespace/emits_to_the_rest, TestNamespace/broadcasts_binary_data_to_rooms, TestNamespace/*exclude*, TestServer/should_receive_all_events_emitted_from_namespaced_client_immediately_and_in_order, TestServer/should_leave_all_rooms_joined_after_a_middleware_failure (panics with a negative WaitGroup counter about once in 25 runs). If another test fails, re-run it alone a few times on the original code before concluding your change caused it.
 2. It must be subtle: it should need something specific to manifest (a particular interleaving, a crash or fault at a particular point, a multi-step sequence of operations, an unusual input, or two cooperating sites that each look fine alone), NOT something ordinary use exposes at once. It should look like a plausible refactoring/optimisation/cleanup mistake a maintainer could make. Keep it small (a few lines).
 3. Lines calling `vhook.Event(...)`/`vhook.Yield(...)` are tracing no-ops in normal builds; keep them intact and attached to the statements they annotate (you may move them along with those statements, and if you add a new branch that changes the state they describe, keep them truthful). Do not edit internal/vhook or any verif_export.go file, and do not use build tags.
 4. Provide a demonstration: a Go test file in the worktree (e.g. seeded_demo_test.go in the package you changed; internal package tests are fine) that FAILS with your change and PASSES on the original code. Verify both ways (save the patch with `git diff -- <changed files> > /tmp/wt/{wt}-out/patch.diff`, revert with `git apply -R`, re-apply with `git apply`). The demo may use timing or goroutine coordination to force the situation but must be reliable (run it 5 times each way). Name the test function TestSeeded<Something>.
